@@ -8,6 +8,7 @@ func init() {
 	verifRegister("VerifC01Fanout", VerifC01Fanout)
 	verifRegister("VerifC08Chain", VerifC08Chain)
 	verifRegister("VerifC08Chain2", VerifC08Chain2)
+	verifRegister("VerifC08FilterShort", VerifC08FilterShort)
 	verifRegister("VerifC09Proc", VerifC09Proc)
 	verifRegister("VerifC09Dest", VerifC09Dest)
 	verifRegister("VerifC09DLQ", VerifC09DLQ)
@@ -70,6 +71,24 @@ func VerifC08Chain2() {
 	m := verifParam("M", 1)
 	w, worker := buildWorker(vCfg{N: n, S: 2, M: m, dlqSize: 0, dlqTh: 0, destSimple: true,
 		stageKinds: [][]int{{vkSingle, vkError, vkMulti2, vkFilter}, {vkSingle, vkError, vkMulti2}}})
+	err := worker.doTask(context.Background(), worker.FirstTask, &Batch{}, newRunAckNacker(worker))
+	w.checkEnd(err)
+	verifObserve("stopped", err != nil)
+	if err == nil {
+		verifCover("clean")
+	} else {
+		verifCover("stopped")
+	}
+}
+
+// VerifC08FilterShort: three records, a first stage that filters some of them
+// and a second stage that answers short (the rest is retried) or splits, so
+// that retried ranges span records an earlier stage removed.
+func VerifC08FilterShort() {
+	n := verifParam("N", 3)
+	m := verifParam("M", 1)
+	w, worker := buildWorker(vCfg{N: n, S: 2, M: m, dlqSize: 0, dlqTh: 0, destSimple: true,
+		stageKinds: [][]int{{vkSingle, vkFilter}, {vkSingle, vkNil, vkMulti2, vkError}}})
 	err := worker.doTask(context.Background(), worker.FirstTask, &Batch{}, newRunAckNacker(worker))
 	w.checkEnd(err)
 	verifObserve("stopped", err != nil)
